@@ -419,7 +419,7 @@ impl Property for C18 {
         "C18"
     }
     fn rule(&self) -> String {
-        "each case = one of four small programs (plain, one needing 3 passes, a faulty one, one steered by a define) under an input name with/without extension and directory (incl. names that \
+        "each case = one of five small programs (plain, one needing 3 passes, a faulty one, one steered by a define, one whose overridden constant has a label-derived initialiser - for the two define-steered programs the output is also known in closed form) under an input name with/without extension and directory (incl. names that \
          equal a derived output name) x 1-4 output groups, each with a format spec drawn from every format and parameter of the usage text (valid; or invalid: unknown name, unknown parameter, value outside the documented set, malformed; or built constructively: a parameterised format with each parameter value drawn from a boundary list - 0, 1, the valid values and their neighbours, non-numbers) or none, and -o / derived name / -p / both -o and -p (printing wins); global options (-q, -t/--iters incl. 0/x/-1, -d, -h, -v) placed in a random group at a random position, every \
          option in one of its spellings (-f X, -fX, --format=X, --format X, -o X, --output=X, -t N, -tN, --iters=N, -dN=V, --define N=V, --define=N=V). Oracle R-CLI: the format table is parsed from \
          src/usage_help.md at run time; a line the usage text does not allow must be rejected before assembling (also on the faulty program: no located error may be reported); otherwise the files \
